@@ -146,6 +146,151 @@ theorem md4_history (ops : List HOp) : run Md4.alg (reset Md4.alg) ops = specRun
 theorem ripemd160_history (ops : List HOp) : run Rmd.alg (reset Rmd.alg) ops = specRun Rmd.alg [] ops :=
   hash_history_eq_spec _ _
 
+
+/-! ### MD4: the table-driven rounds of md4block.go are RFC 1320 §3.4's explicit operation lists -/
+namespace Md4
+
+/-- RFC 1320 §3.4: F(X,Y,Z) = XY v not(X) Z (the Go code uses the equivalent ((Y xor Z) and X) xor Z) -/
+def Frfc (x y z : UInt32) : UInt32 := (x &&& y) ||| (~~~x &&& z)
+
+theorem F_eq_rfc (x y z : UInt32) : F x y z = Frfc x y z := by
+  unfold F Frfc
+  apply UInt32.toBitVec_inj.mp
+  ext i hi
+  simp
+  cases x.toBitVec[i] <;> cases y.toBitVec[i] <;> cases z.toBitVec[i] <;> rfl
+
+/-- RFC 1320's `[abcd k s]`: a = (a + f(b,c,d) + X[k] + K) <<< s  (K = 0, 5A827999, 6ED9EBA1) -/
+def op (f : UInt32 → UInt32 → UInt32 → UInt32) (K : UInt32) (X : Array UInt32) (a b c d : UInt32)
+    (k s : Nat) : UInt32 :=
+  rotl (a + f b c d + wd X k + K) s
+
+theorem step_eq (f : UInt32 → UInt32 → UInt32 → UInt32) (K : UInt32) (X : Array UInt32) (x s : Nat) (v : St) :
+    step f K X x s v = ⟨v.d, op f K X v.a v.b v.c v.d x s, v.b, v.c⟩ := by
+  simp only [step, op, UInt32.add_assoc]
+
+/-- Round 1: [ABCD 0 3] [DABC 1 7] [CDAB 2 11] [BCDA 3 19] … [BCDA 15 19] -/
+def rfcRound1 (X : Array UInt32) (v : St) : St :=
+  let A := v.a; let B := v.b; let C := v.c; let D := v.d
+  let A := op Frfc 0 X A B C D 0 3
+  let D := op Frfc 0 X D A B C 1 7
+  let C := op Frfc 0 X C D A B 2 11
+  let B := op Frfc 0 X B C D A 3 19
+  let A := op Frfc 0 X A B C D 4 3
+  let D := op Frfc 0 X D A B C 5 7
+  let C := op Frfc 0 X C D A B 6 11
+  let B := op Frfc 0 X B C D A 7 19
+  let A := op Frfc 0 X A B C D 8 3
+  let D := op Frfc 0 X D A B C 9 7
+  let C := op Frfc 0 X C D A B 10 11
+  let B := op Frfc 0 X B C D A 11 19
+  let A := op Frfc 0 X A B C D 12 3
+  let D := op Frfc 0 X D A B C 13 7
+  let C := op Frfc 0 X C D A B 14 11
+  let B := op Frfc 0 X B C D A 15 19
+  ⟨A, B, C, D⟩
+
+/-- Round 2: [ABCD 0 3] [DABC 4 5] [CDAB 8 9] [BCDA 12 13] … [BCDA 15 13] -/
+def rfcRound2 (X : Array UInt32) (v : St) : St :=
+  let A := v.a; let B := v.b; let C := v.c; let D := v.d
+  let A := op G 0x5a827999 X A B C D 0 3
+  let D := op G 0x5a827999 X D A B C 4 5
+  let C := op G 0x5a827999 X C D A B 8 9
+  let B := op G 0x5a827999 X B C D A 12 13
+  let A := op G 0x5a827999 X A B C D 1 3
+  let D := op G 0x5a827999 X D A B C 5 5
+  let C := op G 0x5a827999 X C D A B 9 9
+  let B := op G 0x5a827999 X B C D A 13 13
+  let A := op G 0x5a827999 X A B C D 2 3
+  let D := op G 0x5a827999 X D A B C 6 5
+  let C := op G 0x5a827999 X C D A B 10 9
+  let B := op G 0x5a827999 X B C D A 14 13
+  let A := op G 0x5a827999 X A B C D 3 3
+  let D := op G 0x5a827999 X D A B C 7 5
+  let C := op G 0x5a827999 X C D A B 11 9
+  let B := op G 0x5a827999 X B C D A 15 13
+  ⟨A, B, C, D⟩
+
+/-- Round 3: [ABCD 0 3] [DABC 8 9] [CDAB 4 11] [BCDA 12 15] … [BCDA 15 15] -/
+def rfcRound3 (X : Array UInt32) (v : St) : St :=
+  let A := v.a; let B := v.b; let C := v.c; let D := v.d
+  let A := op H 0x6ed9eba1 X A B C D 0 3
+  let D := op H 0x6ed9eba1 X D A B C 8 9
+  let C := op H 0x6ed9eba1 X C D A B 4 11
+  let B := op H 0x6ed9eba1 X B C D A 12 15
+  let A := op H 0x6ed9eba1 X A B C D 2 3
+  let D := op H 0x6ed9eba1 X D A B C 10 9
+  let C := op H 0x6ed9eba1 X C D A B 6 11
+  let B := op H 0x6ed9eba1 X B C D A 14 15
+  let A := op H 0x6ed9eba1 X A B C D 1 3
+  let D := op H 0x6ed9eba1 X D A B C 9 9
+  let C := op H 0x6ed9eba1 X C D A B 5 11
+  let B := op H 0x6ed9eba1 X B C D A 13 15
+  let A := op H 0x6ed9eba1 X A B C D 3 3
+  let D := op H 0x6ed9eba1 X D A B C 11 9
+  let C := op H 0x6ed9eba1 X C D A B 7 11
+  let B := op H 0x6ed9eba1 X B C D A 15 15
+  ⟨A, B, C, D⟩
+
+/-- RFC 1320 §3.4: save AA..DD, three rounds, A = A + AA … -/
+def rfcBlock (s : St) (p : Bytes) : St :=
+  let X := words p
+  let v := rfcRound3 X (rfcRound2 X (rfcRound1 X s))
+  ⟨v.a + s.a, v.b + s.b, v.c + s.c, v.d + s.d⟩
+
+theorem range16 : List.range 16 = [0, 1, 2, 3, 4, 5, 6, 7, 8, 9, 10, 11, 12, 13, 14, 15] := by rfl
+
+theorem round1_eq_rfc (X : Array UInt32) (v : St) : round1 X v = rfcRound1 X v := by
+  have hF : (F : UInt32 → UInt32 → UInt32 → UInt32) = Frfc := by funext x y z; exact F_eq_rfc x y z
+  unfold round1 rfcRound1
+  rw [range16, hF]
+  simp only [List.foldl_cons, List.foldl_nil, step_eq, Nat.reduceMod]
+  rfl
+
+theorem round2_eq_rfc (X : Array UInt32) (v : St) : round2 X v = rfcRound2 X v := by
+  unfold round2 rfcRound2
+  rw [range16]
+  simp only [List.foldl_cons, List.foldl_nil, step_eq, Nat.reduceMod]
+  rfl
+
+theorem round3_eq_rfc (X : Array UInt32) (v : St) : round3 X v = rfcRound3 X v := by
+  unfold round3 rfcRound3
+  rw [range16]
+  simp only [List.foldl_cons, List.foldl_nil, step_eq, Nat.reduceMod]
+  rfl
+
+/-- **the MD4 compression function of the model (loops over shift/index tables, as md4block.go) is
+    RFC 1320's** -/
+theorem block_eq_rfc (s : St) (p : Bytes) : block s p = rfcBlock s p := by
+  unfold block rfcBlock
+  simp only [round1_eq_rfc, round2_eq_rfc, round3_eq_rfc]
+
+/-- MD4 exactly as RFC 1320 describes it: padding (§3.1–3.2), initial values (§3.3), the explicit
+    operation lists (§3.4), little-endian output (§3.5) -/
+def rfcAlg : MD St := { alg with block := rfcBlock }
+
+theorem alg_eq_rfc : alg = rfcAlg := by
+  unfold rfcAlg
+  have : alg.block = rfcBlock := by funext s p; exact block_eq_rfc s p
+  cases h : alg with
+  | mk i b o => simp only [h] at this; simp [this]
+
+end Md4
+
+/-- **MD4 histories return the RFC 1320 digest** (RFC-shaped compression function) -/
+theorem md4_history_rfc (ops : List HOp) :
+    run Md4.alg (reset Md4.alg) ops = specRun Md4.rfcAlg [] ops := by
+  rw [md4_history, Md4.alg_eq_rfc]
+
+/-- non-vacuity: a two-chunk history with a Sum in the middle -/
+example : run Md4.alg (reset Md4.alg) [.w [0x61], .s [], .w [0x62, 0x63], .s [0xff]] =
+    [some (mdHash Md4.rfcAlg [0x61]), some (0xff :: mdHash Md4.rfcAlg [0x61, 0x62, 0x63])] := by
+  rw [md4_history_rfc]; rfl
+
+example : run Rmd.alg (reset Rmd.alg) [.w [1, 2], .r, .w [3], .s [], .s [9]] =
+    [some (ripemd160 [3]), some (9 :: ripemd160 [3])] := by
+  rw [ripemd160_history]; rfl
+
 /-- digest sizes: 16 and 20 bytes -/
 theorem md4_size (m : Bytes) : (md4 m).length = 16 := by
   simp [md4, mdHash, Md4.alg, u32le, natToLE_length]
